@@ -49,6 +49,14 @@ func (p *Parser) parseJournal() *ast.Journal {
 		switch p.current.Type {
 		case TokenNewline:
 			p.advance()
+		case TokenIndent:
+			// a line of blanks only is an empty line
+			indent := p.current
+			p.advance()
+			if p.current.Type != TokenNewline && p.current.Type != TokenEOF {
+				p.errorAt(indent.Pos, "unexpected token: %s", indent.Type)
+				p.skipToNextLine()
+			}
 		case TokenComment:
 			journal.Comments = append(journal.Comments, p.parseComment())
 		case TokenDate:
